@@ -47,11 +47,13 @@ pub struct St {
     /// short-circuit or conditional skipped an operand at least once
     pub skipped_operand: bool,
     pub macro_iterations: u64,
+    /// map entries are already in the order the implementation iterates them (C10 reads it off the log)
+    pub map_order_known: bool,
 }
 
 impl St {
     pub fn new(vars: &[(String, V)], table: Table) -> St {
-        St { scopes: vec![vars.to_vec()], log: vec![], table, host: true, builtins: true, calls: 0, skipped_operand: false, macro_iterations: 0 }
+        St { scopes: vec![vars.to_vec()], log: vec![], table, host: true, builtins: true, calls: 0, skipped_operand: false, macro_iterations: 0, map_order_known: false }
     }
     fn lookup(&self, n: &str) -> Option<&V> {
         for s in self.scopes.iter().rev() {
@@ -404,6 +406,9 @@ fn eval_macro(m: Mac, range: &E, var: &str, body: &[E], st: &mut St) -> Res {
     let rv = eval(range, st)?;
     let items: Vec<V> = match rv {
         V::List(xs) => xs,
+        // the iteration order of a map is unspecified: a prediction is only possible for <= 1 entries, or when the
+        // caller has already put the entries into the order the run revealed (C10)
+        V::Map(es) if es.len() > 1 && !st.map_order_known => return Err(unsup("macro over a multi-entry map (order unspecified)")),
         V::Map(es) => es.into_iter().map(|(k, _)| k).collect(),
         V::Func(..) => return Err(unsup("function value operand")),
         _ => return Err(other()),
@@ -762,9 +767,7 @@ fn eval_call(name: &str, recv: Option<&E>, args: &[E], st: &mut St) -> Res {
             }
         }
         "max" | "min" => {
-            if a.recv.is_some() {
-                return Err(unsup("min/max called as a method"));
-            }
+            // variadic: the receiver (already evaluated, once) is not among the arguments
             let mut items = vec![];
             for x in args {
                 items.push(eval(x, st)?);
@@ -777,6 +780,9 @@ fn eval_call(name: &str, recv: Option<&E>, args: &[E], st: &mut St) -> Res {
             } else {
                 items
             };
+            if items.is_empty() {
+                return Ok(V::Null);
+            }
             minmax(&items, if name == "max" { Ordering::Greater } else { Ordering::Less })
         }
         _ => Err(unsup("time built-ins are checked by C15/C16")),
